@@ -530,6 +530,13 @@ def execute(sim, doc):
             have = tree.get(p_)
             if have is None or have["k"] != e_["k"] or (e_["k"] == "f" and have.get("d") != e_.get("d")) or (e_["k"] == "l" and have.get("t") != e_.get("t")):
                 return {"class": "not_converged", "first": "%s %s" % ("missing" if have is None else "stale", p_.replace("/w/", "")), "n_diffs": 1, "oracle": "O4"}, st
+        # O5: where the tool itself removes what it no longer generates (the *.m files of a MATLAB +package directory that the
+        # current generation writes into), nothing that this session generated and the final package does not produce is left
+        made = {o["path"].split(" -> ")[-1] for o in res["ops"] if o.get("mut") and o["g"] != "editor" and o["op"] not in ("remove", "removeall")}
+        for p_ in sorted(made):
+            dir_ = p_.rsplit("/", 1)[0]
+            if p_.endswith(".m") and "/+" in p_ and p_ in tree and tree[p_]["k"] == "f" and p_ not in clean["tree"] and dir_ in clean["tree"]:
+                return {"class": "not_converged", "first": "left behind %s" % p_.replace("/w/", ""), "n_diffs": 1, "oracle": "O5"}, st
         allowed = set(clean["tree"])
         last_edit = max([o["seq"] for o in res["ops"] if o["op"] == "edit"] or [0])
         born = {o["g"]: o["seq"] for o in res["ops"] if o["op"] == "born"}
